@@ -91,7 +91,7 @@ def main():
             rc, out = sh("./check %s %s" % (pid, tier), cwd=ROOT, timeout=7200)
             line = [l for l in out.splitlines() if l.startswith(("VIOLATION", "OK ", "INCONCLUSIVE"))]
             results[pid] = {"exit": rc, "wall_s": round(time.time() - t0, 1), "line": line[-1] if line else out[-200:]}
-            meta["ran"].append("git -C /repo apply patch.diff && ./check %s %s -> exit %d" % (pid, tier, rc))
+            meta["ran"].append("git -C %s apply patch.diff && ./check %s %s -> exit %d" % (REPO, pid, tier, rc))
             print(pid, results[pid], flush=True)
     finally:
         # (reset first: a failed three-way apply leaves unmerged index entries behind)
